@@ -26,7 +26,7 @@ ASSUMPTIONS = [
     "find_single_node_by_path follows the first child of each name (as documented), find_all_nodes_by_path all of them",
     "replace_child is driven with delete_old=False in the exhaustive part and with both settings in the random histories (the default deletes the old subtree from the registry, which is C14's subject; the ordered-tree invariants must hold regardless)",
 ]
-REQUIRED = ["steps", "failing_edits", "edge_shifts_positional", "edge_shifts_samename", "query_evaluations", "states_expanded"]
+REQUIRED = ["deep_chain_nodes", "steps", "failing_edits", "edge_shifts_positional", "edge_shifts_samename", "query_evaluations", "states_expanded"]
 EXHAUSTIVE = {"quick": False, "thorough": False}
 
 INDEXES = (None, -1, 0, 1, 2, 9)
@@ -403,6 +403,26 @@ def random_history(ctx, n_nodes, n_ops, hist_no):
     emlkit.discard(*nodes)
 
 
+def deep_chain(ctx, depth):
+    """A chain far deeper than the random forests get: ancestry, path and descendant queries at depth 60-150."""
+    names = [("a", "b")[i % 2] for i in range(depth)]
+    nodes, label = fresh_nodes(names)
+    f = Forest(names)
+    history = []
+
+    def wit():
+        return {"names": names, "history": [list(o) for o in history[:-1]], "op": list(history[-1])}
+
+    for i in range(1, depth):
+        op = ("add", i - 1, i, None)
+        history.append(op)
+        deep = i >= depth - 3 or i in (63, 64, 65, 99, 100, 101)
+        if not step(ctx, nodes, label, f, op, ["a", "b"], [("a",), ("b", "a")], wit, [i, 0] if deep else [i]):
+            break
+    ctx.count("deep_chain_nodes", depth)
+    emlkit.discard(*nodes)
+
+
 def run(ctx, params):
     if params.get("repo_tests"):
         from vlib import repotests
@@ -411,6 +431,8 @@ def run(ctx, params):
     if params["bfs"]:
         with ctx.guard(3000.0):
             bfs(ctx, params["bfs"]["names"], params["bfs"]["depth"])
+    if params["random"]:
+        deep_chain(ctx, 140 if ctx.tier == "quick" else 400)
     for h in range(params["random"]):
         random_history(ctx, ctx.rng.randint(12, 40), ctx.rng.randint(200, max(201, params["maxops"])), h)
         ctx.count("random_histories")
